@@ -13,17 +13,17 @@ import httpcore
 @harness(
     "C09", "expiry",
     quick=[{"ct": ct, "flavour": fl} for ct in ("h11", "h11tls", "h2", "forward", "tunnel", "socks") for fl in ("sync", "async")],
-    example=dict(e=5, has_e=True, dt=7, srvclose=False),
-    require=("expired", "fresh", "server-closed"),
+    example=dict(e=5, has_e=True, dt=3, srvclose=False, dt2=9),
+    require=("expired", "fresh", "server-closed", "held-across-the-old-deadline"),
     timeout={"quick": 200, "thorough": 600},
-    symbolic="keepalive_expiry e (unbounded integer >= 0, or None), time dt elapsed since the response was closed (unbounded), whether the server closed the idle connection",
+    symbolic="keepalive_expiry e (unbounded integer >= 0, or None), time dt elapsed since the response was closed (unbounded), whether the server closed the idle connection, time dt2 (unbounded) for which the next response is then held open",
     bounds="one exchange, then a second request to the same origin at clock t0+dt; 6 connection types, sync and async",
     outside="float clock values (modelled as integers: compared and added only)",
     stubs=("time.monotonic() is the harness clock (symbolic)", "is_readable is true iff the peer closed or sent unread bytes"),
 )
-def expiry(e: int, has_e: bool, dt: int, srvclose: bool) -> None:
+def expiry(e: int, has_e: bool, dt: int, srvclose: bool, dt2: int) -> None:
     """
-    pre: e >= 0 and dt >= 0
+    pre: e >= 0 and dt >= 0 and dt2 >= 0
     post: _
     """
     ct = shard("ct", "h11")
@@ -45,7 +45,7 @@ def expiry(e: int, has_e: bool, dt: int, srvclose: bool) -> None:
             lambda: f"expiry:{ct}:has_expired={conn.has_expired()} want={want}")
     if closed_by_server and not is_h1 and not (has_e and dt > e):
         return  # an HTTP/2 connection the server closed is not detectable before use (outside the statement)
-    o2 = su.api.request(su.pool, "GET", su.url("b"), extensions={"timeout": {"pool": 0, "read": 5}})
+    o2 = su.api.open(su.pool, "GET", su.url("b"), extensions={"timeout": {"pool": 0, "read": 5}})
     P.check(o2.ok, "second-request-never-gets-a-dead-connection", lambda: f"expiry:{ct}:second:{o2.kind()}")
     n_conn = len(su.net.events("connect_tcp"))
     if want:
@@ -54,6 +54,22 @@ def expiry(e: int, has_e: bool, dt: int, srvclose: bool) -> None:
     else:
         P.check(n_conn == 1, "fresh-idle-connection-reused", f"expiry:{ct}:not-reused")
         P.check(sock.open, "fresh-connection-kept", f"expiry:{ct}:fresh-closed")
+    if not o2.ok:
+        return
+    if not want:
+        # the response on the reused connection stays open while time passes (any amount, also beyond the old
+        # keep-alive deadline) and the pool does its housekeeping for somebody else: a connection in use is
+        # neither expired nor closed
+        vrt.RT.clock = vrt.RT.clock + dt2
+        P.check(not conn.has_expired() and not conn.is_idle(), "connection-in-use-is-not-expired",
+                f"expiry:{ct}:in-use-reported-expired")
+        o3 = su.api.request(su.pool, "GET", su.url("c", host="elsewhere.test"), extensions={"timeout": {"pool": 0, "read": 5}})
+        P.check(o3.ok, "housekeeping-request-ok", lambda: f"expiry:{ct}:third:{o3.kind()}")
+        P.check(sock.open, "connection-in-use-is-not-closed-by-the-pool", f"expiry:{ct}:in-use-closed")
+        P.cover("held-across-the-old-deadline")
+    rd = su.api.read(o2.value)
+    su.api.close_response(o2.value)
+    P.check(rd.ok and rd.value.endswith(b"/b"), "held-response-read-to-the-end", lambda: f"expiry:{ct}:held-body:{rd.kind()}")
 
 
 KS = (0, 1, None)
